@@ -56,6 +56,9 @@ func VH_C01_sync_then_events() {
 	mc.Metadata.MonitorId = "mon"
 	mc.WithEventTypes(nil)
 	mon := NewMonitor(context.Background(), nil, &metric.VFakeStorage{}, mc, func(ev kemtypes.KubeEvent) {
+		// in the operator the callback is a send into the events channel: a visible
+		// operation at which the sender can be preempted before the event is enqueued
+		zz.Yield()
 		if !unlockStarted {
 			deliveredBeforeUnlock++
 		}
